@@ -41,7 +41,10 @@ NsMaps == << <<>>, [p |-> U1], [p |-> U2], [q |-> U1], [p |-> U1, q |-> U1], [p 
 VarsOf(ns) == << [sp |-> <<>>, lo |-> <<"v">>, val |-> StrV(<<"a">>)],
                  [sp |-> U1, lo |-> <<"v">>, val |-> NumV(NInt(2))],
                  [sp |-> U2, lo |-> <<"v">>, val |-> BoolV(TRUE)],
-                 [sp |-> <<>>, lo |-> <<"n">>, val |-> [t |-> "ns", v |-> <<1>>]] >>
+                 [sp |-> <<>>, lo |-> <<"n">>, val |-> [t |-> "ns", v |-> <<1>>]],
+                 \* bound to the false / zero / empty value of each type: bound all the same
+                 [sp |-> <<>>, lo |-> <<"f","0">>, val |-> BoolV(FALSE)], [sp |-> <<>>, lo |-> <<"z","0">>, val |-> NumV(Zero(1))],
+                 [sp |-> <<>>, lo |-> <<"s","0">>, val |-> StrV(<<>>)], [sp |-> U1, lo |-> <<"e","0">>, val |-> [t |-> "ns", v |-> <<>>]] >>
 Funcs == << [sp |-> U1, lo |-> <<"f">>, kind |-> "arg", i |-> 2],
             [sp |-> U2, lo |-> <<"f">>, kind |-> "arg", i |-> 1],
             [sp |-> <<>>, lo |-> <<"c","o","u","n","t">>, kind |-> "const", val |-> StrV(<<"u","s","e","r">>)],   \* shadows a builtin
@@ -75,6 +78,8 @@ PoolC11 == << All(T_name("p", <<"a">>)), All(T_name("q", <<"a">>)), All(T_name("
               \* an unbound prefix is an error all the same, a bound one selects nothing
               Abs(<<DoS, Step("child", T_text), Step("child", T_name("q", <<"a">>))>>), Abs(<<DoS, Step("child", T_text), Step("attribute", T_name("q", <<"x">>))>>),
               Abs(<<DoS, Step("child", T_text), Step("child", T_nsany("q"))>>), Call(<<"c","o","u","n","t">>, <<Abs(<<DoS, Step("child", T_text), Step("child", T_name("d", <<"a">>))>>)>>),
+              Var("", <<"f","0">>), Var("", <<"z","0">>), Var("", <<"s","0">>), Var("p", <<"e","0">>), Call(<<"c","o","n","c","a","t">>, <<Var("", <<"s","0">>), Lit(<<"|">>), Var("", <<"z","0">>)>>),
+              Call(<<"n","o","t">>, <<Var("", <<"f","0">>)>>),
               Call(<<"l","a","s","t">>, <<>>), Abs(<<DoS, StepP("child", T_any, <<Call(<<"p","o","s","i","t","i","o","n">>, <<>>)>>)>>),
               Abs(<<DoS, StepP("child", T_any, <<Bin("eq", Call(<<"l","a","s","t">>, <<>>), Lit(<<"m","i","n","e">>))>>)>>) >>
 \* invariance under consistent renaming of the query's prefixes: swapping the roles of p and q in
@@ -139,7 +144,11 @@ NameLaws == (Complete /\ Family = "C12n") => \A n \in Ids(doc) :
 
 LangTags == << <<"e","n">>, <<"E","N">>, <<"e","n","-","U","S">>, <<"e","n","-","u">>, <<"z","H">>, <<"e">>, <<>>, <<"e","n","-">>, <<"e","n","-","u","s","-","x">> >>
 S_lang == <<"l","a","n","g">>
-PoolC12l == [i \in 1..Len(LangTags) |-> Call(S_lang, <<Lit(LangTags[i])>>)]
+LangE(i) == Call(S_lang, <<Lit(LangTags[i])>>)
+PoolC12l == [i \in 1..Len(LangTags) |-> LangE(i)]
+            \o << Bin("and", LangE(1), LangE(3)), Bin("or", LangE(5), LangE(1)), Bin("and", LangE(3), LangE(1)),
+                  Abs(<<DoS, StepP("child", T_any, <<LangE(1), LangE(9)>>)>>), Abs(<<DoS, StepP("child", T_any, <<LangE(9), LangE(1)>>)>>),
+                  Call(<<"c","o","n","c","a","t">>, <<Call(<<"s","t","r","i","n","g">>, <<LangE(5)>>), Call(<<"s","t","r","i","n","g">>, <<LangE(2)>>)>>) >>
             \o << Abs(<<DoS, StepP("child", T_node, <<Call(S_lang, <<Lit(<<"e","n">>)>>)>>)>>),
                   Call(<<"c","o","u","n","t">>, <<Abs(<<DoS, StepP("attribute", T_any, <<Call(S_lang, <<Lit(<<"E","n","-","U","s">>)>>)>>)>>)>>),
                   Call(S_lang, <<Rel(<<Step("attribute", T_any)>>)>>) >>
@@ -156,7 +165,9 @@ ASSUME Family = "C12n" => EmitPool("C12.names", PoolC12n)
 ASSUME Family = "C12l" => EmitPool("C12.lang", PoolC12l)
 RootCases(dd, env, pool) == [i \in 1..Len(pool) |-> CCase(dd, env, 1, pool, i)]
 Emit == Complete =>
-  CASE Family = "C11" -> \A i \in 1..Len(NsMaps) : EmitLine("C11.bind", doc, EnvOf(i), RootCases(doc, EnvOf(i), PoolC11))
+  CASE Family = "C11" -> /\ \A i \in 1..Len(NsMaps) : EmitLine("C11.bind", doc, EnvOf(i), RootCases(doc, EnvOf(i), PoolC11))
+                         \* the same queries with the same prefixes and variables but NO function library (the lines are replayed in one process)
+                         /\ EmitLine("C11.bind", doc, [EnvOf(2) EXCEPT !.funcs = <<>>], RootCases(doc, [EnvOf(2) EXCEPT !.funcs = <<>>], PoolC11))
     [] Family = "C12n" -> EmitLine("C12.names", doc, EnvC12Of(doc), AllCCases(doc, EnvC12Of(doc), PoolC12n))
     [] Family = "C12l" -> EmitLine("C12.lang", doc, EmptyEnv, AllCCases(doc, EmptyEnv, PoolC12l))
     [] OTHER -> TRUE
